@@ -39,7 +39,7 @@ theorem exit_plane_result (step : W → S → W) (detect : W → M) (w0 : W) (p 
   have hrun := runConfig_spec step detect p ent ps first tl 0 w0 slices hp hf hs hb
   have hcfg : configLoop step detect p first w0 w0 0 p.configs
       = (slices.foldl step w0, configWrites step detect (measurementIndex p 0) ent ps w0 slices) := by
-    rw [hc]; simp [configLoop, hrun]
+    rw [hc]; simp [configLoop, hrun, mReset]
   rw [msd_eq step detect w0 p first tl (hp.trans hf), hcfg]
   by_cases hfin : mNoTable (((extraShape p).foldl (· + ·) 0 : Nat) : Int) ((first :: tl).getLastD 0) (p.nslices : Int) = true
   · rw [if_pos hfin]
@@ -119,6 +119,21 @@ theorem validate_int_large (k n : Nat) (hn : 0 < n) (hk : n ≤ k) :
     List.nil_append, List.map_cons, List.map_nil]
   congr 2
   simp only [Int.ofNat_eq_natCast]; omega
+
+/-- **The loop never indexes outside the allocated table**: for every configuration index and exit index in range the
+measurement index has as many components as the allocated ensemble shape, each below its dimension (the index order —
+configuration, then exit plane — is the order of the allocated axes). -/
+theorem exit_index_in_range (p : Pot S) (c e : Nat) (hc : c < p.configs.length) (he : e < p.planes.length) :
+    List.Forall₂ (· < ·) (measurementIndex p c e) (extraShape p) := by
+  unfold measurementIndex extraShape iSinglePlane sPlaneAxis
+  have hpos : 0 < p.planes.length := by omega
+  by_cases h1 : p.planes.length = 1
+  · have hnot : ¬ ((p.planes.length : Int) > 1) := by omega
+    have hone : ((p.planes.length : Int) = 1) := by omega
+    cases p.ensAxis <;> simp [hone, hnot, hc]
+  · have hgt : ((p.planes.length : Int) > 1) := by omega
+    have hne : ¬ ((p.planes.length : Int) = 1) := by omega
+    cases p.ensAxis <;> simp [hne, hgt, hc, he]
 
 /-! ### integer exit planes (`_validate_exit_planes` with an int) -/
 
